@@ -58,4 +58,14 @@ def filterText (a : Miniapps.Abc) (maxid : Float) (recs : List Rec) : Option Str
   let out := keptSorted.filterMap fun i => (recs[i]?).map fun r => { r with seq := a.normalize r.seq }
   some (String.ofList (renderFasta 60 out))
 
+/-- `esl-weight -f --idf <x>`: `esl_msaweight_IDFilter`, the kept rows written as Stockholm (no weights) -/
+def weightFilterText (a : Miniapps.Abc) (maxid : Float) (recs : List Rec) : Option String := do
+  let rows ← recs.mapM fun r => digRow a r.seq
+  let alen := (rows.headD []).length
+  let ms := minspanOf half32 alen
+  let cols := filterConsensus (wAbc a) (ruleOf half32) ms none rows alen
+  let kept := idFilterDigital (wAbc a) maxid (rows.map fun r => Float.ofNat (conscover (wAbc a) cols r)) rows
+  let keptSorted := (kept.toArray.qsort (· < ·)).toList
+  some (stockholmText a (keptSorted.filterMap fun i => recs[i]?) none)
+
 end EaselModel.Miniapps
